@@ -1,0 +1,35 @@
+//go:build verif
+
+package gencode
+
+import (
+	"fmt"
+
+	"github.com/TarsCloud/TarsGo/tars/tools/tars2go/ast"
+	"github.com/TarsCloud/TarsGo/tars/tools/tars2go/options"
+)
+
+// Read-only access for the verification harness (property C16): the Go type text and the zero/default text the
+// generator uses for a member, as functions of the AST node alone.
+
+// VerifGenType returns genType(ty) under the given options; ok is false when the generator reports an error.
+func VerifGenType(opt *options.Options, ty *ast.VarType) (text string, ok bool) {
+	defer func() {
+		if r := recover(); r != nil {
+			text, ok = fmt.Sprint(r), false
+		}
+	}()
+	g := &GenGo{opt: opt}
+	return g.genType(ty), true
+}
+
+// VerifTypeDef returns typeDef(mb): the text an optional member is compared with before it is written.
+func VerifTypeDef(opt *options.Options, mb *ast.StructMember) (text string, ok bool) {
+	defer func() {
+		if r := recover(); r != nil {
+			text, ok = fmt.Sprint(r), false
+		}
+	}()
+	g := &GenGo{opt: opt}
+	return g.typeDef(mb), true
+}
